@@ -207,6 +207,7 @@ _register_base = register
 def register(reg):  # noqa: F811
     _register_base(reg)
     register_update(reg)
+    register_validation(reg)
 
 
 ASSUMPTIONS = {"C01": ["link graph is well formed: every chain of inputs/adapters is finite and ends in an output (established by linking and Composition._validate_composition, decided in C19)",
@@ -397,4 +398,131 @@ def register_update(reg):
         must_raise={"FinamCircularCouplingError": in_chain},
         loops={1: dict(invariant=ur_inv, locals={"chain": ChainT, "updated": TOpt(TRef("IComponent")), "c": TRef("IComponent"),
                                                   "dep": TRef("IOutput"), "local_time": Time, "delayed": Bool})},
+    ))
+
+
+# =================================================================================================
+# validation walkers (C19)
+# =================================================================================================
+CONN = z3.Function("Connected", IntS, BoolS)          # the upstream walk from x never meets a missing source
+ROOT2 = z3.Function("Root", IntS, IntS)                # the output it ends in (if connected)
+
+
+def src_opt(ctx, x):
+    return ctx.get(x, "_source")
+
+
+def conn_axioms(ctx):
+    x = z3.Int("cx_x")
+    so = src_opt(ctx, x)
+    s = strip_none(so).e
+    inp = isa("IInput", x)
+    trig = lambda f: [z3.MultiPattern(f, s)]
+    return [
+        z3.ForAll([x], Implies(Not(inp), And(CONN(x), ROOT2(x) == x)), patterns=[CONN(x)]),
+        z3.ForAll([x], Implies(And(inp, is_none(so)), Not(CONN(x))), patterns=[CONN(x)]),
+        z3.ForAll([x], Implies(And(inp, Not(is_none(so))), And(CONN(x) == CONN(s), ROOT2(x) == ROOT2(s))), patterns=trig(CONN(x))),
+        # chains are finite (no adapter-only cycles: stated assumption)
+        z3.ForAll([x], Implies(And(inp, Not(is_none(so))), And(DEPTH(x) > DEPTH(s), DEPTH(s) >= 0, s > 0)), patterns=trig(DEPTH(x))),
+        z3.ForAll([x], DEPTH(x) >= 0, patterns=[DEPTH(x)]),
+    ]
+
+
+def static_of(ctx, x):
+    return ctx.get(x, "$is_static").e
+
+
+def register_validation(reg):
+    # ------------------------------------------------------------------ _check_input_connected (C19.1)
+    def cic_bad(ctx):
+        x0 = ctx.inp.e
+        return Or(Not(CONN(x0)), And(static_of(ctx.old, x0), Not(static_of(ctx.old, ROOT2(x0)))))
+
+    def cic_inv(ctx):
+        x0 = ctx.inp.e
+        cur = ctx.local("inp")
+        e = strip_none(cur).e
+        return And(Not(is_none(cur)), e > 0, CONN(e) == CONN(x0), ROOT2(e) == ROOT2(x0),
+                   ctx.local("static").e == static_of(ctx, x0))
+
+    reg.add(Contract(
+        f"{S}._check_input_connected", props=["C19.1"], params={"comp": TRef("IComponent"), "inp": TRef("IInput")},
+        requires=lambda ctx: And(isa("IInput", ctx.inp.e),
+                                 Implies(CONN(ctx.inp.e), Or(isa("IOutput", ROOT2(ctx.inp.e)), isa("IInput", ROOT2(ctx.inp.e))))),
+        ensures=lambda ctx, r: Not(cic_bad(ctx)), modifies=lambda ctx: [], axioms=conn_axioms,
+        raises={"FinamConnectError": cic_bad}, must_raise={"FinamConnectError": cic_bad}, raise_frame_empty=True,
+        loops={1: dict(invariant=cic_inv, decreases=lambda ctx: DEPTH(strip_none(ctx.local("inp")).e),
+                       locals={"inp": TRef(None)})},
+    ))
+
+    # ------------------------------------------------------------------ _check_dead_links (C19.2)
+    def chain_list(ctx):
+        return ctx.local("chain")
+
+    def cdl_inv1(ctx):
+        ch = chain_list(ctx)
+        cur = ctx.local("inp")
+        e = strip_none(cur).e
+        i = z3.Int(sv.uid("ci"))
+        x0 = ctx.inp.e
+        return And(Not(is_none(cur)), e > 0, ch.n >= 1, ch.n <= CLEN(x0), e == ELEM(x0, ch.n - 1),
+                   z3.ForAll([i], Implies(And(0 <= i, i < ch.n), And(Not(is_none(ch.at(i))), strip_none(ch.at(i)).e == ELEM(x0, i)))))
+
+    def rev(ctx, k):
+        ch = chain_list(ctx)
+        return strip_none(ch.at(ch.n - 1 - k)).e
+
+    def pull(ctx, x):
+        return ctx.get(x, "$needs_pull").e
+
+    def push(ctx, x):
+        return ctx.get(x, "$needs_push").e
+
+    def dead_upto(ctx, k):
+        a, b = z3.Ints("dl_a dl_b")
+        return z3.Exists([a, b], And(0 <= a, a < b, b < k, pull(ctx, rev(ctx, a)), push(ctx, rev(ctx, b))))
+
+    def cdl_inv2(ctx):
+        ch = chain_list(ctx)
+        fi = ctx.local("first_index").e
+        a = z3.Int("dl_q")
+        x0 = ctx.inp.e
+        i = z3.Int(sv.uid("ci"))
+        return And(ch.n == CLEN(x0),
+                   z3.ForAll([i], Implies(And(0 <= i, i < ch.n), And(Not(is_none(ch.at(i))), strip_none(ch.at(i)).e == ELEM(x0, i)))),
+                   ctx.k <= ch.n, Not(dead_upto(ctx, ctx.k)), fi >= -1, fi < ctx.k,
+                   Implies(fi >= 0, pull(ctx, rev(ctx, fi))),
+                   z3.ForAll([a], Implies(And(0 <= a, a < ctx.k, pull(ctx, rev(ctx, a))), fi >= 0)))
+
+    ELEM = z3.Function("chain.elem", IntS, IntS, IntS)   # i-th element of the upstream walk from x0 (0 = the input)
+    CLEN = z3.Function("chain.len", IntS, IntS)          # number of elements, the last one is the output
+
+    def elem_axioms(ctx):
+        x0, i = z3.Ints("el_x el_i")
+        e = ELEM(x0, i)
+        return walk_axioms(ctx) + [
+            z3.ForAll([x0], ELEM(x0, 0) == x0, patterns=[ELEM(x0, 0)]),
+            z3.ForAll([x0, i], Implies(And(0 <= i, isa("IInput", e)), ELEM(x0, i + 1) == SRC(ctx, e)), patterns=[z3.MultiPattern(e, SRC(ctx, e))]),
+            z3.ForAll([x0], And(CLEN(x0) >= 1, Not(isa("IInput", ELEM(x0, CLEN(x0) - 1)))), patterns=[CLEN(x0)]),
+            z3.ForAll([x0, i], Implies(And(0 <= i, i < CLEN(x0) - 1), isa("IInput", e)), patterns=[z3.MultiPattern(e, CLEN(x0))]),
+            z3.ForAll([x], DEPTH(x) >= 0, patterns=[DEPTH(x)]) if False else z3.BoolVal(True),
+        ]
+
+    def dead_spec(ctx):
+        """a pull-only element lies upstream of an element that must be notified by pushes (positions counted from the output)"""
+        x0 = ctx.inp.e
+        n = CLEN(x0)
+        a, b = z3.Ints("ds_a ds_b")
+        c0 = ctx.old
+        return z3.Exists([a, b], And(0 <= a, a < b, b < n, pull(c0, ELEM(x0, n - 1 - a)), push(c0, ELEM(x0, n - 1 - b))))
+
+    reg.add(Contract(
+        f"{S}._check_dead_links", props=["C19.2"], params={"comp": TRef("IComponent"), "inp": TRef("IInput")},
+        requires=lambda ctx: And(isa("IInput", ctx.inp.e), wf_graph(ctx), ctx.inp.e > 0),
+        modifies=lambda ctx: [], axioms=elem_axioms,
+        raises={"FinamConnectError": dead_spec}, must_raise={"FinamConnectError": dead_spec}, raise_frame_empty=True,
+        loops={1: dict(invariant=cdl_inv1, decreases=lambda ctx: DEPTH(strip_none(ctx.local("inp")).e),
+                       locals={"inp": TRef(None), "chain": TList(TOpt(TRef(None)))}),
+               2: dict(invariant=cdl_inv2, locals={"first_index": Int})},
+        ensures=lambda ctx, r: z3.BoolVal(True),
     ))
